@@ -318,6 +318,8 @@ pub struct FrontendCtx<'a, R: FileManager> {
     pub counter: usize,
 
     pub type_application_stack: Vec<(String, Runtype)>,
+    // generic instantiations in progress, one inside the other
+    instantiation_depth: usize,
     typeof_value_stack: Vec<ModuleItemAddress>,
     resolution_stack: Vec<ModuleItemAddress>,
     typeof_expr_stack: Vec<(BffFileName, Span)>,
@@ -1168,6 +1170,7 @@ impl<'a, R: FileManager> FrontendCtx<'a, R> {
             counter: 0,
 
             type_application_stack: vec![],
+            instantiation_depth: 0,
             typeof_value_stack: vec![],
             resolution_stack: vec![],
             typeof_expr_stack: vec![],
@@ -1634,11 +1637,20 @@ impl<'a, R: FileManager> FrontendCtx<'a, R> {
 
                         // type parameters are lexically scoped: inside this declaration only its own parameters are
                         // visible, not those of the generic whose body referred to it
+                        // `type G<T> = { a: G<T[]> }`: every instance needs an instance with new arguments, for ever
+                        if !type_args.is_empty() && self.instantiation_depth >= 32 {
+                            return self.error(
+                                anchor,
+                                DiagnosticInfoMessage::CannotHaveRecursiveGenericTypes,
+                            );
+                        }
                         let outer_scope = std::mem::take(&mut self.type_application_stack);
                         for (param, arg) in type_params.into_iter().zip(type_args.iter()) {
                             self.type_application_stack.push((param, arg.clone()));
                         }
+                        self.instantiation_depth += 1;
                         let runtype = self.extract_type(&decl.type_ann, address.file.clone());
+                        self.instantiation_depth -= 1;
                         self.type_application_stack = outer_scope;
                         let runtype = runtype?;
                         Ok(self.with_jsdoc(&address.file, declaration_span, runtype))
@@ -1648,12 +1660,20 @@ impl<'a, R: FileManager> FrontendCtx<'a, R> {
                         local_address: address,
                         declaration_span,
                     } => {
+                        if !type_args.is_empty() && self.instantiation_depth >= 32 {
+                            return self.error(
+                                anchor,
+                                DiagnosticInfoMessage::CannotHaveRecursiveGenericTypes,
+                            );
+                        }
                         let outer_scope = std::mem::take(&mut self.type_application_stack);
+                        self.instantiation_depth += 1;
                         let runtype = self.extract_interface_decl(
                             &t,
                             type_args,
                             module_item_address.file.clone(),
                         );
+                        self.instantiation_depth -= 1;
                         self.type_application_stack = outer_scope;
                         let runtype = runtype?;
                         Ok(self.with_jsdoc(&address.file, declaration_span, runtype))
